@@ -328,3 +328,43 @@ pub proof fn lemma_pairs_stable(fs: Seq<BF>, v: Seq<Term>, grd: Seq<Term>)
         assert forall|j: int| 0 <= j < v.len() && j < grd.len() implies tvo(#[trigger] v[j]) == tvo(grd[j]) by { assert(tvs(v)[j] == tvs(grd)[j]); }
     }
 }
+
+// ---- the single-formula rewriting used by the two "stable via candidates" variants (C03)
+// conjunction over all statements of (condition_i <-> statement_i)
+pub open spec fn rep_sem(fs: Seq<BF>, k: int) -> BF
+    decreases k
+{ if k <= 0 { bf_const(true) } else { bf_and(rep_sem(fs, k - 1), bf_iff(fs[k - 1], bf_var((k - 1) as usize))) } }
+// conjunction over the parsed formulae of (statement_ord[j] <-> formula_j)
+pub open spec fn rw_sem(ord: Seq<usize>, gs: Seq<BF>, k: int) -> BF
+    decreases k
+{ if k <= 0 { bf_const(true) } else { bf_and(rw_sem(ord, gs, k - 1), bf_iff(bf_var(ord[k - 1]), gs[k - 1])) } }
+pub proof fn lemma_rep_sem(fs: Seq<BF>, k: int, a: Asg)
+    requires 0 <= k <= fs.len(), k < usize::MAX,
+    ensures rep_sem(fs, k)(a) <==> (forall|i: int| 0 <= i < k ==> #[trigger] fs[i](a) == a(i as usize))
+    decreases k
+{ if k > 0 { lemma_rep_sem(fs, k - 1, a); } }
+pub proof fn lemma_rw_sem(ord: Seq<usize>, gs: Seq<BF>, k: int, a: Asg)
+    requires 0 <= k <= gs.len(), k <= ord.len(),
+    ensures rw_sem(ord, gs, k)(a) <==> (forall|j: int| 0 <= j < k ==> #[trigger] gs[j](a) == a(ord[j]))
+    decreases k
+{ if k > 0 { lemma_rw_sem(ord, gs, k - 1, a); } }
+// every model of the per-statement rewriting is a model of the per-formula rewriting
+pub proof fn lemma_rw_weaker(fs: Seq<BF>, ord: Seq<usize>, gs: Seq<BF>, a: Asg)
+    requires fs.len() < usize::MAX, ord.len() == gs.len(), forall|j: int| 0 <= j < ord.len() ==> (#[trigger] ord[j]) < fs.len() && gs[j] == fs[ord[j] as int],
+        rep_sem(fs, fs.len() as int)(a),
+    ensures rw_sem(ord, gs, gs.len() as int)(a)
+{
+    lemma_rep_sem(fs, fs.len() as int, a); lemma_rw_sem(ord, gs, gs.len() as int, a);
+    assert forall|j: int| 0 <= j < gs.len() implies #[trigger] gs[j](a) == a(ord[j]) by { assert(fs[ord[j] as int](a) == a(ord[j] as int as usize)); }
+}
+// a stable model is a two-valued model, hence a model of the rewriting: the candidate set loses no stable model
+pub proof fn lemma_stable_in_rep(fs: Seq<BF>, v: Seq<Term>)
+    requires is_stable(fs, v), v.len() < usize::MAX, fs.len() == v.len(), forall|j: int| 0 <= j < v.len() ==> decided(#[trigger] v[j]),
+    ensures rep_sem(fs, fs.len() as int)(asg_of(tvs(v)))
+{
+    lemma_stable_is_fix(fs, v);
+    let tv = tvs(v); let a = asg_of(tv);
+    assert(total(tv)) by { assert forall|i: int| 0 <= i < tv.len() implies (#[trigger] tv[i]).is_some() by { assert(decided(v[i])); } }
+    lemma_rep_sem(fs, fs.len() as int, a);
+    assert forall|i: int| 0 <= i < fs.len() implies #[trigger] fs[i](a) == a(i as usize) by { lemma_total_fix_is_model(fs, tv, i); }
+}
